@@ -119,6 +119,11 @@ type plainPayload struct {
 	HS2 string `class:"secret,hmac-sha256"`
 }
 
+type encOnly struct {
+	S string `class:"sensitive,encrypt"`
+	B []byte `class:"sensitive,encrypt"`
+}
+
 var values = []string{"", "ascii value", "non\xff\xfeutf8\x00", strings.Repeat("0123456789", 20)}
 
 type keyMaterial struct {
@@ -263,7 +268,9 @@ func keyContexts() *hk.Result {
 				for _, ev := range []struct {
 					id         string
 					salt, info []byte
-				}{{"ev-1", nil, nil}, {"ev-1", []byte("ev-salt"), nil}, {"ev-1", nil, []byte("ev-info")}, {"ev-2", []byte("ev-salt"), []byte("ev-info")}, {"ev-3", []byte{}, []byte{}}, {"", nil, nil}} {
+				}{{"ev-1", nil, nil}, {"ev-1", []byte("ev-salt"), nil}, {"ev-1", nil, []byte("ev-info")}, {"ev-2", []byte("ev-salt"), []byte("ev-info")}, {"ev-3", []byte{}, []byte{}}, {"", nil, nil},
+					// an event id is an opaque string: blanks, case and odd bytes are part of it
+					{"ev-1 ", nil, nil}, {" ", nil, nil}, {"EV-1", nil, []byte("ev-info")}, {"ev-1\x00\n\u00e9", []byte("ev-salt"), nil}} {
 					ep := newEwPayload(ev.id, ev.salt, ev.info, val)
 					out, err := mk().Process(ctx, &el.Event{Type: "t", Payload: ep})
 					name := fmt.Sprintf("event-wrapper id=%q evsalt=%q evinfo=%q val=%q salt=%q info=%q", ev.id, ev.salt, ev.info, trunc(val), fsalt, finfo)
@@ -307,7 +314,19 @@ type rotP struct {
 	salt, info []byte
 }
 
-func (r *rotP) Wrapper() wrapping.Wrapper { return r.w }
+func (r *rotP) Wrapper() wrapping.Wrapper {
+	if r.w == nil {
+		return nil
+	}
+	return r.w
+}
+
+// rotPW rotates to any wrapper implementation.
+type rotPW struct{ w wrapping.Wrapper }
+
+func (r *rotPW) Wrapper() wrapping.Wrapper { return r.w }
+func (r *rotPW) HmacSalt() []byte          { return nil }
+func (r *rotPW) HmacInfo() []byte          { return nil }
 func (r *rotP) HmacSalt() []byte          { return r.salt }
 func (r *rotP) HmacInfo() []byte          { return r.info }
 
@@ -315,6 +334,8 @@ type rotInst struct {
 	f   *encrypt.Filter
 	cur keyMaterial
 	gen byte
+	// flaky: the wrapper in force is wrapped in a FailingWrapper whose first call fails
+	flaky *shapes.FailingWrapper
 }
 
 func newRotInst() *rotInst {
@@ -329,7 +350,9 @@ func rotAlphabet() []string {
 			a = append(a, fmt.Sprintf("%s %d", kind, sub))
 		}
 	}
-	return append(a, "event", "event-ew")
+	// rotfail / rotpfail: the wrapper rotated in fails at its first call (a KMS that cannot be reached yet):
+	// the event that meets the failure fails, it is never protected with the wrapper that was rotated out
+	return append(a, "event", "event-ew", "rotfail", "rotpfail")
 }
 
 func (in *rotInst) Apply(op string) (string, string) {
@@ -374,7 +397,7 @@ func (in *rotInst) Apply(op string) (string, string) {
 			}
 		}
 		if w != nil {
-			in.cur.w = w
+			in.cur.w, in.flaky = w, nil
 		}
 		if salt != nil {
 			in.cur.salt = salt
@@ -383,9 +406,30 @@ func (in *rotInst) Apply(op string) (string, string) {
 			in.cur.info = info
 		}
 		return "rotated", ""
+	case "rotfail", "rotpfail":
+		in.gen++
+		w := shapes.NewWrapper(in.gen)
+		fw := &shapes.FailingWrapper{Wrapper: w, FailAt: 1}
+		if f[0] == "rotfail" {
+			in.f.Rotate(encrypt.WithWrapper(fw))
+		} else {
+			out, err := in.f.Process(ctx, &el.Event{Type: "t", Payload: &rotPW{w: fw}})
+			if out != nil || err != nil {
+				return "", fmt.Sprintf("a rotation payload must be consumed: got (%v, %v)", out, err)
+			}
+		}
+		in.cur.w, in.flaky = w, fw
+		return "rotated-to-flaky", ""
 	case "event":
 		val := "value-A"
 		p := &plainPayload{S: val, B: []byte(val), HS: val, HB: []byte(val), HS2: val}
+		if in.flaky != nil {
+			// (HMAC keys can only be derived from a plain aead wrapper, so this event has encrypted fields only)
+			ep := &encOnly{S: val, B: []byte(val)}
+			out, err := in.f.Process(ctx, &el.Event{Type: "t", Payload: ep})
+			_, v := in.metFailure(out, err)
+			return "event-failed", v
+		}
 		out, err := in.f.Process(ctx, &el.Event{Type: "t", Payload: p})
 		if err != nil || out == nil {
 			return "", fmt.Sprintf("Process failed: %v", err)
@@ -395,12 +439,37 @@ func (in *rotInst) Apply(op string) (string, string) {
 		val := "value-B"
 		p := newEwPayload("ev-9", []byte("es"), nil, val)
 		out, err := in.f.Process(ctx, &el.Event{Type: "t", Payload: p})
+		if in.flaky != nil && err != nil && out == nil {
+			// the per-event wrapper is derived from the wrapper in force, which here is not a plain aead
+			// wrapper: refusing the event is right (whether it must be refused is not judged)
+			return "event-ew-refused", ""
+		}
 		if err != nil || out == nil {
 			return "", fmt.Sprintf("Process failed: %v", err)
 		}
 		return "event-ew", verify(out.Payload, val, in.cur, "ev-9", []byte("es"), nil)
 	}
 	return "", "unknown op"
+}
+
+// metFailure: the wrapper in force had its failing call still ahead when this event came: the event met it
+// and must have failed as a whole (nothing forwarded - in particular nothing protected with the wrapper
+// that was rotated out); from then on the wrapper works.
+func (in *rotInst) metFailure(out *el.Event, err error) (bool, string) {
+	fw := in.flaky
+	if fw == nil {
+		return false, ""
+	}
+	// from now on the wrapper works; what it protects is what its inner aead wrapper protects
+	in.f.Rotate(encrypt.WithWrapper(fw.Wrapper))
+	in.flaky = nil
+	if !fw.Failed {
+		return true, "harness: an event with protected fields never called the wrapper in force"
+	}
+	if err == nil || out != nil {
+		return true, fmt.Sprintf("the wrapper in force failed while this event was filtered, yet Process returned (forwarded=%v, err=%v): the event must fail, not be protected with another key", out != nil, err)
+	}
+	return true, ""
 }
 
 // Key: the filter's entire private state (so that an implementation-side cache
@@ -456,6 +525,11 @@ func concScenarios(tier string) []concSc {
 	return out
 }
 
+type tick struct{ t int }
+
+//go:norace
+func (c *tick) next() int { c.t++; return c.t }
+
 func concBody(c concSc) func() string {
 	return func() string {
 		ctx := context.Background()
@@ -469,7 +543,13 @@ func concBody(c concSc) func() string {
 			f.Wrapper = nil
 			f.FilterOperationOverrides = map[encrypt.DataClassification]encrypt.FilterOperation{encrypt.SensitiveClassification: encrypt.RedactOperation}
 		}
+		// real-time order: an event whose Process call starts after the rotation has returned uses the new
+		// material, whatever else is still in flight
+		clk := &tick{}
+		rotRet := 0
+		procCall := make([]int, c.Procs)
 		vrt.GoNamed("rotator", func() {
+			defer func() { rotRet = clk.next() }()
 			if c.Rot == "rotate" {
 				f.Rotate(encrypt.WithWrapper(newM.w), encrypt.WithSalt(newM.salt), encrypt.WithInfo(newM.info))
 			} else {
@@ -489,6 +569,7 @@ func concBody(c concSc) func() string {
 				if c.EW {
 					p = &ewPayload{id: "ev-7", S: val, B: []byte(val), HS: val, HB: []byte(val), HS2: val}
 				}
+				procCall[i] = clk.next()
 				out, err := f.Process(ctx, &el.Event{Type: "t", Payload: p})
 				errs[i] = err
 				if out != nil {
@@ -526,6 +607,9 @@ func concBody(c concSc) func() string {
 					vrt.Fail("Process %d: field %s verifies under neither the old nor the new key: old: %s; new: %s", i, field, vOld, vNew)
 					okAll = false
 				} else if vOld == "" {
+					if rotRet != 0 && procCall[i] > rotRet {
+						vrt.Fail("Process %d was called after the rotation had returned, yet its field %s is protected with the OLD key material", i, field)
+					}
 					sig += "o"
 				} else {
 					sig += "n"
